@@ -231,11 +231,17 @@ func (fv *FV) execRangeMap(st *State, x *ast.RangeStmt, label string, ord int, l
 	fv.ghostAt(body, fmt.Sprintf("loop %d head", ord), x.Pos())
 	end := fv.execBlock(body, x.Body.List)
 	fv.ctx = fv.ctx[:len(fv.ctx)-1]
-	end = fv.merge(append([]*State{end}, lc.continues...)...)
-	if end != nil {
+	for k, end := range append([]*State{end}, lc.continues...) {
+		if end == nil {
+			continue
+		}
+		phase := "preserve"
+		if k > 0 {
+			phase = fmt.Sprintf("preserve@continue%d", k)
+		}
 		end.ghost[itName] = Term{S: app("+", it.S, "1"), Sort: sInt, T: types.Typ[types.Int]}
 		fv.ghostAt(end, fmt.Sprintf("loop %d end", ord), x.Pos())
-		fv.checkInvariants(end, ls, ord, "preserve", x.Pos(), scopePos)
+		fv.checkInvariants(end, ls, ord, phase, x.Pos(), scopePos)
 	}
 	after := fv.merge(append([]*State{exit}, lc.breaks...)...)
 	fv.ghostAt(after, fmt.Sprintf("loop %d exit", ord), x.Pos())
